@@ -430,6 +430,23 @@ func TestC15(t *testing.T) {
 			}
 		})
 	}
+	// every total size of the optional parameters, 4..255 octets, in one and in two
+	// parameters, in both directions (the largest representable OPEN included)
+	batch("opentotals", 0, map[string]any{"space": "optional parameters totalling 4..255 octets, one and two parameters"}, func(b *B) {
+		r := c.Rand("c15tot", 0)
+		for total := 4; total <= 255; total++ {
+			one := [][]wire.Cap{{{Code: uint8(r.IntN(256)), Value: randB(r, total-4)}}}
+			checkOpenValue(b, 4, uint16(r.Uint32()), uint16(r.Uint32()), r.Uint32(), one)
+			checkOpenBytes(b, wire.OpenBodyRaw(4, 65002, 90, 1, total, wire.CapParam(one[0]...).Bytes()))
+			if total >= 12 {
+				two := [][]wire.Cap{{wire.FourOctetAS(r.Uint32())}, {{Code: uint8(r.IntN(256)), Value: randB(r, total-12)}}}
+				checkOpenValue(b, 4, uint16(r.Uint32()), uint16(r.Uint32()), r.Uint32(), two)
+				raw := append(wire.CapParam(two[0]...).Bytes(), wire.CapParam(two[1]...).Bytes()...)
+				checkOpenBytes(b, wire.OpenBodyRaw(4, 65002, 90, 1, total, raw))
+			}
+			b.Sig("total", total>>3)
+		}
+	})
 	// add-path tuples and MP capability
 	batch("addpath", 0, map[string]any{"space": "AFI boundary x SAFI 0..255 x send/receive 0..255; lists up to 63 tuples"}, func(b *B) {
 		r := c.Rand("c15ap", 0)
@@ -470,6 +487,19 @@ func TestC15(t *testing.T) {
 				cp := corebgp.NewAddPathCapability(ts)
 				if cp.Code != 69 || !bytes.Equal(cp.Value, raw) {
 					b.Violate("", fmt.Sprintf("NewAddPathCapability value %x, want %x", cp.Value, raw), nil)
+				}
+				// Capability.Equal is equality of code and value octets
+				same := corebgp.Capability{Code: cp.Code, Value: append([]byte{}, raw...)}
+				diffCode := corebgp.Capability{Code: cp.Code + 1, Value: raw}
+				if !cp.Equal(same) || !same.Equal(cp) || cp.Equal(diffCode) {
+					b.Violate("", fmt.Sprintf("Capability.Equal disagrees with equality of code and value for %d:%x", cp.Code, raw), nil)
+				}
+				if n > 0 {
+					flip := append([]byte{}, raw...)
+					flip[r.IntN(len(flip))] ^= 1 << r.IntN(8)
+					if cp.Equal(corebgp.Capability{Code: cp.Code, Value: flip}) || cp.Equal(corebgp.Capability{Code: cp.Code, Value: raw[:len(raw)-1]}) {
+						b.Violate("", fmt.Sprintf("Capability.Equal reports capabilities with different values equal (%x)", raw), nil)
+					}
 				}
 				got, err := corebgp.DecodeAddPathTuples(raw)
 				if n == 0 {
